@@ -237,28 +237,26 @@ Proof.
   exists s2. repeat split; try congruence. lia.
 Qed.
 
+(* what startServers may touch: the socket table only *)
 Record sext (g g' : gstate) : Prop := {
   s_insts : g_insts g' = g_insts g;
   s_hooks : g_hooks g' = g_hooks g;
   s_cache : g_htcache g' = g_htcache g;
   s_lock : g_htlock g' = g_htlock g;
-  s_rollers : g_rollers g' = g_rollers g;
-  s_socks : socks_le (g_socks g) (g_socks g')
+  s_rollers : g_rollers g' = g_rollers g
 }.
 
 Lemma sext_refl g : sext g g.
-Proof. constructor; auto. apply socks_le_refl. Qed.
+Proof. constructor; auto. Qed.
 
 Lemma sext_trans a b c : sext a b -> sext b c -> sext a c.
 Proof.
-  intros [A1 A2 A3 A4 A5 A6] [B1 B2 B3 B4 B5 B6]. constructor; try congruence.
-  eapply socks_le_trans; eauto.
+  intros [A1 A2 A3 A4 A5] [B1 B2 B3 B4 B5]. constructor; congruence.
 Qed.
 
-Lemma dup_fd_sext g sid : sext g (dup_fd g sid).
+Lemma dup_fd_le g sid : socks_le (g_socks g) (g_socks (dup_fd g sid)).
 Proof.
-  constructor; simpl; try reflexivity.
-  intros s Hs.
+  simpl. intros s Hs.
   exists (if s_id s =? sid then {| s_id := s_id s; s_addr := s_addr s; s_fds := S (s_fds s) |} else s).
   split.
   - apply (in_map (fun s => if s_id s =? sid then {| s_id := s_id s; s_addr := s_addr s; s_fds := S (s_fds s) |} else s)) in Hs.
@@ -266,10 +264,9 @@ Proof.
   - destruct (s_id s =? sid); simpl; repeat split; lia.
 Qed.
 
-Lemma new_sock_sext g a : sext g (new_sock g a).
+Lemma new_sock_le g a : socks_le (g_socks g) (g_socks (new_sock g a)).
 Proof.
-  constructor; simpl; try reflexivity.
-  intros s Hs. exists s. repeat split; auto. apply in_or_app. left. exact Hs.
+  simpl. intros s Hs. exists s. repeat split; auto. apply in_or_app. left. exact Hs.
 Qed.
 
 Lemma start_servers_sext old addrs : forall g acc r g' srv,
@@ -279,13 +276,12 @@ Proof.
   - injection H as <- <- <-. split; [apply sext_refl|discriminate].
   - destruct (inherited a old) as [sid|].
     + apply IH in H as [H NH]. split; [|exact NH].
-      eapply sext_trans; [apply dup_fd_sext|exact H].
+      eapply sext_trans; [|exact H]. constructor; reflexivity.
     + destruct a as [n|].
       * apply IH in H as [H NH]. split; [|exact NH].
-        eapply sext_trans; [apply new_sock_sext|exact H].
-      * injection H as <- <- <-. split; [apply sext_refl|discriminate].
+        eapply sext_trans; [|exact H]. constructor; reflexivity.
+      * injection H as <- <- <-. split; [constructor; reflexivity|discriminate].
 Qed.
-
 
 Lemma start_servers_no_busy old addrs : forall g acc r g' srv,
   existsb is_busy addrs = false -> start_servers old addrs g acc = (r, g', srv) -> r = ROk.
@@ -298,61 +294,126 @@ Proof.
     + destruct a as [n|]; [eapply IH; eauto|discriminate].
 Qed.
 
-Lemma start_servers_fresh_safe addrs : forall g acc r g' srv,
-  listen_safe addrs = true -> start_servers [] addrs g acc = (r, g', srv) -> r <> ROk -> g' = g.
+(* --- closing what was opened gives the socket table back (in a well-formed table) --- *)
+Definition closed_again (acc : list (addr * N)) (socks : list sock) : list sock :=
+  fold_right (fun p socks => close_fd socks (snd p)) socks acc.
+
+Definition table_ok (socks : list sock) (next : N) : Prop :=
+  forall s, In s socks -> (1 <= s_fds s)%nat /\ s_id s < next.
+
+Lemma close_fd_dup socks sid next :
+  table_ok socks next ->
+  close_fd (map (fun s => if s_id s =? sid then {| s_id := s_id s; s_addr := s_addr s; s_fds := S (s_fds s) |} else s) socks) sid = socks.
 Proof.
-  intros g acc r g' srv LS H NR. destruct addrs as [|a addrs].
-  - simpl in H. injection H as <- <- <-. congruence.
-  - destruct a as [n|].
-    + simpl in LS. apply negb_true_iff in LS.
-      exfalso. apply NR. eapply (start_servers_no_busy [] (AEph n :: addrs)); eauto.
-    + simpl in H. injection H as <- <- <-. reflexivity.
+  induction socks as [|s socks IH]; intros T; [reflexivity|].
+  assert (Hs : (1 <= s_fds s)%nat) by (apply T; left; reflexivity).
+  assert (IH' := IH (fun x Hx => T x (or_intror Hx))).
+  unfold close_fd in *. cbn [map].
+  destruct (s_id s =? sid) eqn:E; cbn [s_id s_fds s_addr].
+  - rewrite E. cbn [filter s_fds pred Nat.eqb negb]. destruct s as [i a f]. cbn [s_id s_addr s_fds] in *.
+    destruct f as [|f]; [lia|]. cbn [Nat.eqb negb]. f_equal. exact IH'.
+  - rewrite E. cbn [filter]. destruct (s_fds s) as [|f] eqn:F; [lia|]. cbn [Nat.eqb negb]. f_equal. exact IH'.
 Qed.
 
-(* with inherited listeners the failing Listen is harmless only if it comes first *)
-Lemma start_servers_safe old addrs : forall g acc r g' srv,
-  listen_safe addrs = true -> inherited ABusy old = None ->
-  start_servers old addrs g acc = (r, g', srv) -> r <> ROk -> g' = g.
+Lemma close_fd_new socks next a :
+  table_ok socks next ->
+  close_fd (socks ++ [{| s_id := next; s_addr := a; s_fds := 1 |}]) next = socks.
 Proof.
-  intros g acc r g' srv LS NI H NR. destruct addrs as [|a addrs].
-  - simpl in H. injection H as <- <- <-. congruence.
-  - destruct a as [n|].
-    + simpl in LS. apply negb_true_iff in LS.
-      exfalso. apply NR. eapply (start_servers_no_busy old (AEph n :: addrs)); eauto.
-    + simpl in H. rewrite NI in H. injection H as <- <- <-. reflexivity.
+  induction socks as [|s socks IH]; intros T.
+  - unfold close_fd. cbn [app map s_id]. rewrite N.eqb_refl. reflexivity.
+  - assert (Hs : (1 <= s_fds s)%nat /\ s_id s < next) by (apply T; left; reflexivity).
+    assert (IH' := IH (fun x Hx => T x (or_intror Hx))).
+    unfold close_fd in *. cbn [app map].
+    destruct (s_id s =? next) eqn:E; [apply N.eqb_eq in E; lia|].
+    cbn [filter]. destruct (s_fds s) as [|f] eqn:F; [lia|]. cbn [Nat.eqb negb]. f_equal. exact IH'.
+Qed.
+
+Lemma close_fd_ok socks sid next : table_ok socks next -> table_ok (close_fd socks sid) next.
+Proof.
+  intros T s Hs. unfold close_fd in Hs. apply filter_In in Hs as [Hs NZ].
+  apply in_map_iff in Hs as (s0 & E & Hs0). destruct (T s0 Hs0) as [F I].
+  destruct (s_id s0 =? sid); subst s; simpl in *.
+  - split; [|exact I]. destruct (s_fds s0) as [|[|f]]; simpl in *; try discriminate; lia.
+  - split; assumption.
+Qed.
+
+Lemma closed_again_ok acc socks next : table_ok socks next -> table_ok (closed_again acc socks) next.
+Proof.
+  induction acc as [|p acc IH]; intros T; simpl; [exact T|]. apply close_fd_ok. apply IH. exact T.
+Qed.
+
+Lemma table_ok_mono socks n m : n <= m -> table_ok socks n -> table_ok socks m.
+Proof. intros L T s Hs. destruct (T s Hs). split; [assumption|lia]. Qed.
+
+Lemma dup_fd_ok g sid : socks_ok g -> socks_ok (dup_fd g sid).
+Proof.
+  intros T s Hs. simpl in Hs. apply in_map_iff in Hs as (s0 & E & Hs0). destruct (T s0 Hs0) as [F I].
+  simpl. destruct (s_id s0 =? sid); subst s; simpl; split; auto.
+Qed.
+
+Lemma new_sock_ok g a : socks_ok g -> socks_ok (new_sock g a).
+Proof.
+  intros T s Hs. simpl in Hs. apply in_app_or in Hs as [Hs|[Hs|[]]]; simpl.
+  - destruct (T s Hs). split; [assumption|lia].
+  - subst s. simpl. split; [auto|lia].
+Qed.
+
+Lemma closed_again_app acc p socks :
+  closed_again (acc ++ [p]) socks = closed_again acc (close_fd socks (snd p)).
+Proof. unfold closed_again. rewrite fold_right_app. reflexivity. Qed.
+
+(* a failing startServers leaves the socket table as it found it; a succeeding one closes nothing *)
+Lemma start_servers_socks old addrs : forall g acc r g' srv,
+  socks_ok g -> start_servers old addrs g acc = (r, g', srv) ->
+  socks_ok g' /\ g_next g <= g_next g' /\
+  (r = ROk -> socks_le (g_socks g) (g_socks g')) /\
+  (r <> ROk -> g_socks g' = closed_again acc (g_socks g)).
+Proof.
+  induction addrs as [|a addrs IH]; intros g acc r g' srv T H; simpl in H.
+  - injection H as <- <- <-. split; [exact T|]. split; [lia|]. split; [intros _; apply socks_le_refl|congruence].
+  - destruct (inherited a old) as [sid|].
+    + destruct (IH _ _ _ _ _ (dup_fd_ok g sid T) H) as (T' & N' & OK & KO).
+      split; [exact T'|]. split; [exact N'|]. split.
+      * intros E. eapply socks_le_trans; [apply dup_fd_le|apply OK; exact E].
+      * intros E. rewrite (KO E), closed_again_app. simpl.
+        rewrite (close_fd_dup _ _ _ T). reflexivity.
+    + destruct a as [n|].
+      * destruct (IH _ _ _ _ _ (new_sock_ok g (AEph n) T) H) as (T' & N' & OK & KO).
+        simpl in N'. split; [exact T'|]. split; [lia|]. split.
+        -- intros E. eapply socks_le_trans; [apply new_sock_le|apply OK; exact E].
+        -- intros E. rewrite (KO E), closed_again_app. simpl.
+           rewrite (close_fd_new _ _ _ T). reflexivity.
+      * injection H as <- <- <-. split; [|split; [simpl; lia|split; [discriminate|reflexivity]]].
+        intros s Hs. exact (closed_again_ok acc _ _ T s Hs).
 Qed.
 
 (* ------------------------------------------------------------------ nothing is ever lost *)
-(* what ANY call of startWithListenerFds may do to the global state: registries and caches only grow,
-   no descriptor is closed, the instance list and the mutex are as before *)
+(* what ANY call of startWithListenerFds may do to the registries: they only grow, the instance list and
+   the mutex are as before (the socket table is treated separately: it needs a well-formed table) *)
 Record grow (step : N) (g g' : gstate) : Prop := {
   w_insts : g_insts g' = g_insts g;
   w_lock : g_htlock g' = g_htlock g;
   w_hooks : exists k, g_hooks g' = g_hooks g ++ repeat step k;
   w_cache : forall f x, assoc f (g_htcache g) = Some x -> assoc f (g_htcache g') = Some x;
-  w_rollers : forall f x, assoc f (g_rollers g) = Some x -> assoc f (g_rollers g') = Some x;
-  w_socks : socks_le (g_socks g) (g_socks g')
+  w_rollers : forall f x, assoc f (g_rollers g) = Some x -> assoc f (g_rollers g') = Some x
 }.
 
 Lemma grow_refl step g : grow step g g.
 Proof.
   constructor; auto.
-  - exists O. simpl. symmetry. apply app_nil_r.
-  - apply socks_le_refl.
+  exists O. simpl. symmetry. apply app_nil_r.
 Qed.
 
 Lemma grow_trans step a b c : grow step a b -> grow step b c -> grow step a c.
 Proof.
-  intros [A1 A2 [ka A3] A4 A5 A6] [B1 B2 [kb B3] B4 B5 B6]. constructor; try congruence; auto.
-  - exists (ka + kb)%nat. rewrite B3, A3, <- app_assoc, repeat_app. reflexivity.
-  - eapply socks_le_trans; eauto.
+  intros [A1 A2 [ka A3] A4 A5] [B1 B2 [kb B3] B4 B5]. constructor; try congruence; auto.
+  exists (ka + kb)%nat. rewrite B3, A3, <- app_assoc, repeat_app. reflexivity.
 Qed.
 
 Lemma ext_grow step g g' : ext step g g' -> grow step g g'.
 Proof.
   intros [A1 A2 A3 A4 A5 A6 A7]. constructor; auto.
-  - intros f x. rewrite A4. auto.
-  - rewrite A2. apply socks_le_refl.
+  intros f x. rewrite A4. auto.
 Qed.
 
 Lemma rext_grow step g g' : rext g g' -> grow step g g'.
@@ -360,16 +421,18 @@ Proof.
   intros [A1 A2 A3 A4 A5 A6 A7]. constructor; auto.
   - exists O. rewrite A2. simpl. symmetry. apply app_nil_r.
   - intros f x. rewrite A3. auto.
-  - rewrite A5. apply socks_le_refl.
 Qed.
 
 Lemma sext_grow step g g' : sext g g' -> grow step g g'.
 Proof.
-  intros [A1 A2 A3 A4 A5 A6]. constructor; auto.
+  intros [A1 A2 A3 A4 A5]. constructor; auto.
   - exists O. rewrite A2. simpl. symmetry. apply app_nil_r.
   - intros f x. rewrite A3. auto.
   - intros f x. rewrite A5. auto.
 Qed.
+
+Lemma grow_set_socks step g g' x n : grow step g g' -> grow step g (set_socks g' x n).
+Proof. intros [A1 A2 A3 A4 A5]. constructor; auto. Qed.
 
 Lemma start_with_grow step e c old g r g' oi :
   start_with step e c old g = (r, g', oi) -> grow step g g'.
@@ -384,7 +447,49 @@ Proof.
   destruct r2; try (injection H as <- <- <-; eapply grow_trans; eauto).
   destruct (start_servers old (c_addrs c) g2 []) as [[r3 g3] srv] eqn:E3.
   pose proof (sext_grow step _ _ (proj1 (start_servers_sext _ _ _ _ _ _ _ E3))) as G3.
-  destruct r3; injection H as <- <- <-; eapply grow_trans; eauto; eapply grow_trans; eauto.
+  assert (G : grow step g g3) by (eapply grow_trans; eauto; eapply grow_trans; eauto).
+  destruct r3; injection H as <- <- <-; [exact G|apply grow_set_socks; exact G|apply grow_set_socks; exact G].
+Qed.
+
+(* the socket table: a failing start gives it back as it was, a succeeding one closes nothing *)
+Lemma start_with_socks step e c old g r g' oi :
+  socks_ok g -> start_with step e c old g = (r, g', oi) ->
+  socks_ok g' /\ (r = ROk -> socks_le (g_socks g) (g_socks g')) /\
+  (r <> ROk -> g_socks g' = g_socks g /\ g_next g' = g_next g).
+Proof.
+  unfold start_with. intros T H.
+  assert (SAME : forall ga, g_socks ga = g_socks g -> g_next ga = g_next g ->
+                 socks_ok ga /\ (RErr = ROk -> socks_le (g_socks g) (g_socks ga)) /\
+                 (g_socks ga = g_socks g /\ g_next ga = g_next g)).
+  { intros ga S1 S2. split; [|split; [discriminate|split; assumption]].
+    intros s Hs. rewrite S1 in Hs. rewrite S2. apply T. exact Hs. }
+  destruct (negb (parse_ok c)).
+  { injection H as <- <- <-. destruct (SAME g eq_refl eq_refl) as (A & _ & B).
+    split; [exact A|]. split; [discriminate|intros _; exact B]. }
+  destruct (exec_effs step e (c_effs c) g l0) as [[r1 g1] l] eqn:E1.
+  pose proof (exec_effs_ext _ _ _ _ _ _ _ _ E1) as X1.
+  pose proof (x_socks _ _ _ X1) as S1. pose proof (x_next _ _ _ X1) as N1.
+  destruct r1;
+    try (injection H as <- <- <-; destruct (SAME g1 S1 N1) as (A & _ & B);
+         split; [exact A|]; split; [discriminate|intros _; exact B]).
+  destruct (run_startups (l_startups l) g1) as [r2 g2] eqn:E2.
+  pose proof (proj1 (run_startups_rext _ _ _ _ E2)) as X2.
+  assert (S2 : g_socks g2 = g_socks g) by (rewrite (r_socks _ _ X2); exact S1).
+  assert (N2 : g_next g2 = g_next g) by (rewrite (r_next _ _ X2); exact N1).
+  destruct r2;
+    try (injection H as <- <- <-; destruct (SAME g2 S2 N2) as (A & _ & B);
+         split; [exact A|]; split; [discriminate|intros _; exact B]).
+  destruct (start_servers old (c_addrs c) g2 []) as [[r3 g3] srv] eqn:E3.
+  assert (T2 : socks_ok g2) by (destruct (SAME g2 S2 N2) as (A & _); exact A).
+  destruct (start_servers_socks _ _ _ _ _ _ _ T2 E3) as (T3 & N3 & OK & KO).
+  destruct r3; injection H as <- <- <-.
+  - split; [exact T3|]. split; [intros _; rewrite <- S2; apply OK; reflexivity|congruence].
+  - assert (S3 : g_socks g3 = g_socks g) by (rewrite KO; [exact S2|discriminate]).
+    destruct (SAME (set_socks g3 (g_socks g3) (g_next g2)) S3 N2) as (A & _ & B).
+    split; [exact A|]. split; [discriminate|intros _; exact B].
+  - assert (S3 : g_socks g3 = g_socks g) by (rewrite KO; [exact S2|discriminate]).
+    destruct (SAME (set_socks g3 (g_socks g3) (g_next g2)) S3 N2) as (A & _ & B).
+    split; [exact A|]. split; [discriminate|intros _; exact B].
 Qed.
 
 Lemma start_with_no_hang step e c old g r g' oi :
@@ -495,9 +600,9 @@ Proof.
   - unfold do_sigusr1 in H. destruct (g_insts g) as [|old rest] eqn:GI; [injection H as <- <-; apply grow_refl|].
     destruct (do_reload step e c (set_hooks g [])) as [r1 g1] eqn:R.
     destruct r1; injection H as <- <-; try congruence.
-    + apply failed_reload_grow in R; [|discriminate]. destruct R as [R1 R2 R3 R4 R5 R6].
+    + apply failed_reload_grow in R; [|discriminate]. destruct R as [R1 R2 R3 R4 R5].
       constructor; simpl in *; auto. exists O. simpl. symmetry. apply app_nil_r.
-    + apply failed_reload_grow in R; [|discriminate]. destruct R as [R1 R2 R3 R4 R5 R6].
+    + apply failed_reload_grow in R; [|discriminate]. destruct R as [R1 R2 R3 R4 R5].
       constructor; simpl in *; auto. exists O. simpl. symmetry. apply app_nil_r.
   - unfold do_validate in H. destruct (negb (parse_ok c)); [injection H as <- <-; apply grow_refl|].
     destruct (exec_effs step e (c_effs c) g l0) as [[r1 g1] l] eqn:E1.
@@ -529,12 +634,6 @@ Proof.
   - intros H. right. auto.
 Qed.
 
-Lemma inherited_busy_none old : srv_wf old -> inherited ABusy old = None.
-Proof.
-  intros W. destruct (inherited ABusy old) as [sid|] eqn:I; [|reflexivity].
-  apply inherited_in in I. exfalso. eapply W; eauto.
-Qed.
-
 Lemma start_servers_wf old addrs : forall g acc r g' srv,
   srv_wf old -> srv_wf acc -> start_servers old addrs g acc = (r, g', srv) -> srv_wf srv.
 Proof.
@@ -548,7 +647,7 @@ Proof.
       * eapply IH; [exact WO| |exact H].
         intros a' s' Hin. apply in_app_or in Hin as [Hin|[Hin|[]]]; [eapply WA; eauto|].
         injection Hin as <- <-. discriminate.
-      * injection H as <- <- <-. exact WA.
+      * injection H as <- <- <-. intros a' s' [].
 Qed.
 
 Lemma start_with_inst_wf step e c old g g' ni :
@@ -565,94 +664,146 @@ Proof.
   eapply start_servers_wf; [exact WO| |exact E3]. intros a sid [].
 Qed.
 
+Lemma fold_close_ok l : forall socks next, table_ok socks next -> table_ok (fold_left close_fd l socks) next.
+Proof.
+  induction l as [|sid l IH]; intros socks next T; simpl; [exact T|].
+  apply IH. apply close_fd_ok. exact T.
+Qed.
+
+Lemma stop_inst_ok g i : socks_ok g -> socks_ok (stop_inst g i).
+Proof. intros T. unfold socks_ok, stop_inst. simpl. apply fold_close_ok. exact T. Qed.
+
 Lemma reload_wf step e c g r g' : wf g -> do_reload step e c g = (r, g') -> wf g'.
 Proof.
-  unfold do_reload. intros W H. destruct (g_insts g) as [|old rest] eqn:GI; [injection H as <- <-; exact W|].
+  unfold do_reload. intros [W T] H. destruct (g_insts g) as [|old rest] eqn:GI; [injection H as <- <-; split; [rewrite GI|]; assumption|].
   destruct (start_with step e c (i_servers old) g) as [[r1 g1] oi] eqn:S.
   pose proof (w_insts _ _ _ (start_with_grow _ _ _ _ _ _ _ _ S)) as GI1.
-  assert (W1 : wf g1) by (unfold wf; rewrite GI1; exact W).
+  destruct (start_with_socks _ _ _ _ _ _ _ _ T S) as (T1 & _).
+  assert (W1 : wf g1) by (split; [rewrite GI1, GI; exact W|exact T1]).
   destruct r1; [destruct oi as [ni|]|..]; injection H as <- <-; try exact W1.
+  split; [|apply stop_inst_ok; exact T1].
   intros i Hi. simpl in Hi. apply in_app_or in Hi as [Hi|[Hi|[]]].
-  - apply W. rewrite GI. right. exact Hi.
-  - subst i. eapply start_with_inst_wf; [|exact S]. apply W. rewrite GI. left. reflexivity.
+  - apply W. right. exact Hi.
+  - subst i. eapply start_with_inst_wf; [|exact S]. apply W. left. reflexivity.
 Qed.
 
 Lemma attempt_wf m step e c g r g' : wf g -> attempt m step e c g = (r, g') -> wf g'.
 Proof.
+  assert (VL : forall g r g', wf g -> do_validate step e c g = (r, g') -> wf g').
+  { clear. intros g r g' [W T] H. unfold do_validate in H.
+    destruct (negb (parse_ok c)); [injection H as <- <-; split; assumption|].
+    destruct (exec_effs step e (c_effs c) g l0) as [[r1 g1] l] eqn:E1.
+    injection H as <- <-. pose proof (exec_effs_ext _ _ _ _ _ _ _ _ E1) as X. split.
+    - rewrite (x_insts _ _ _ X). exact W.
+    - intros s Hs. rewrite (x_socks _ _ _ X) in Hs. rewrite (x_next _ _ _ X). apply T. exact Hs. }
   destruct m; simpl; intros W H.
   - unfold do_load in H. destruct (start_with step e c [] g) as [[r1 g1] oi] eqn:S.
     pose proof (w_insts _ _ _ (start_with_grow _ _ _ _ _ _ _ _ S)) as GI1.
-    assert (W1 : wf g1) by (unfold wf; rewrite GI1; exact W).
+    destruct W as [W T].
+    destruct (start_with_socks _ _ _ _ _ _ _ _ T S) as (T1 & _).
+    assert (W1 : wf g1) by (split; [rewrite GI1; exact W|exact T1]).
     destruct r1; [destruct oi as [ni|]|..]; injection H as <- <-; try exact W1.
+    split; [|exact T1].
     intros i Hi. simpl in Hi. apply in_app_or in Hi as [Hi|[Hi|[]]].
-    + apply W1. exact Hi.
+    + rewrite GI1 in Hi. apply W. exact Hi.
     + subst i. eapply start_with_inst_wf; [|exact S]. intros a sid [].
-  - unfold do_validate in H. destruct (negb (parse_ok c)); [injection H as <- <-; exact W|].
-    destruct (exec_effs step e (c_effs c) g l0) as [[r1 g1] l] eqn:E1.
-    injection H as <- <-. unfold wf. rewrite (x_insts _ _ _ (exec_effs_ext _ _ _ _ _ _ _ _ E1)). exact W.
+  - eapply VL; eauto.
   - eapply reload_wf; eauto.
   - unfold do_sigusr1 in H. destruct (g_insts g) as [|old rest] eqn:GI; [injection H as <- <-; exact W|].
     destruct (do_reload step e c (set_hooks g [])) as [r1 g1] eqn:R.
     apply reload_wf in R; [|exact W].
     destruct r1; injection H as <- <-; exact R.
-  - unfold do_validate in H. destruct (negb (parse_ok c)); [injection H as <- <-; exact W|].
+  - eapply VL; eauto.
+Qed.
+
+(* a failed attempt gives the socket table back exactly *)
+Lemma failed_attempt_socks m step e c g r g' :
+  socks_ok g -> attempt m step e c g = (r, g') -> r <> ROk ->
+  g_socks g' = g_socks g /\ g_next g' = g_next g.
+Proof.
+  assert (VL : forall g r g', do_validate step e c g = (r, g') -> g_socks g' = g_socks g /\ g_next g' = g_next g).
+  { clear. intros g r g' H. unfold do_validate in H.
+    destruct (negb (parse_ok c)); [injection H as <- <-; split; reflexivity|].
     destruct (exec_effs step e (c_effs c) g l0) as [[r1 g1] l] eqn:E1.
-    injection H as <- <-. unfold wf. rewrite (x_insts _ _ _ (exec_effs_ext _ _ _ _ _ _ _ _ E1)). exact W.
+    injection H as <- <-. pose proof (exec_effs_ext _ _ _ _ _ _ _ _ E1) as X.
+    split; [exact (x_socks _ _ _ X)|exact (x_next _ _ _ X)]. }
+  assert (RL : forall g r g', socks_ok g -> do_reload step e c g = (r, g') -> r <> ROk ->
+               g_socks g' = g_socks g /\ g_next g' = g_next g).
+  { clear. intros g r g' T H NR. unfold do_reload in H.
+    destruct (g_insts g) as [|old rest]; [injection H as <- <-; split; reflexivity|].
+    destruct (start_with step e c (i_servers old) g) as [[r1 g1] oi] eqn:S.
+    destruct (start_with_socks _ _ _ _ _ _ _ _ T S) as (_ & _ & KO).
+    destruct r1; [destruct (start_with_ok_some _ _ _ _ _ _ _ S) as [ni ->]; injection H as <- <-; congruence|..];
+      injection H as <- <-; apply KO; discriminate. }
+  destruct m; simpl; intros T H NR.
+  - unfold do_load in H. destruct (start_with step e c [] g) as [[r1 g1] oi] eqn:S.
+    destruct (start_with_socks _ _ _ _ _ _ _ _ T S) as (_ & _ & KO).
+    destruct r1; [destruct (start_with_ok_some _ _ _ _ _ _ _ S) as [ni ->]; injection H as <- <-; congruence|..];
+      injection H as <- <-; apply KO; discriminate.
+  - eapply VL; eauto.
+  - eapply RL; eauto.
+  - unfold do_sigusr1 in H. destruct (g_insts g) as [|old rest] eqn:GI; [injection H as <- <-; split; reflexivity|].
+    destruct (do_reload step e c (set_hooks g [])) as [r1 g1] eqn:R.
+    assert (r1 <> ROk) as NR1 by (destruct r1; injection H as <- <-; congruence).
+    assert (T' : socks_ok (set_hooks g [])) by exact T.
+    destruct (RL _ _ _ T' R NR1) as [A B]. simpl in A, B.
+    destruct r1; injection H as <- <-; try congruence; simpl; split; assumption.
+  - eapply VL; eauto.
 Qed.
 
 (* ------------------------------------------------------------------ harmless failures are the identity *)
 
 Lemma start_with_harmless step e c old g r g' oi :
-  no_auth (c_effs c) = true -> no_log (c_effs c) = true -> listen_safe (c_addrs c) = true ->
-  inherited ABusy old = None ->
+  socks_ok g -> no_auth (c_effs c) = true -> no_log (c_effs c) = true ->
   start_with step e c old g = (r, g', oi) -> r <> ROk ->
   g_insts g' = g_insts g /\ g_htcache g' = g_htcache g /\ g_htlock g' = g_htlock g /\
   g_rollers g' = g_rollers g /\ g_socks g' = g_socks g /\ g_next g' = g_next g /\
   (no_on (c_effs c) = true -> g_hooks g' = g_hooks g).
 Proof.
-  unfold start_with. intros NA NL LS NI H NR.
+  intros T NA NL H NR.
+  destruct (start_with_socks _ _ _ _ _ _ _ _ T H) as (_ & _ & KO). destruct (KO NR) as [KS KN].
+  revert H. unfold start_with. intros H.
   destruct (negb (parse_ok c)); [injection H as <- <- <-; repeat split; auto|].
   destruct (exec_effs step e (c_effs c) g l0) as [[r1 g1] l] eqn:E1.
   pose proof (exec_effs_ext _ _ _ _ _ _ _ _ E1) as X.
   pose proof (exec_effs_no_auth_same _ _ _ _ _ _ _ _ NA E1) as [C1 L1].
   pose proof (exec_effs_no_log_startups _ _ _ _ _ _ _ _ NL E1) as SU. simpl in SU.
   assert (F1 : g_insts g1 = g_insts g /\ g_htcache g1 = g_htcache g /\ g_htlock g1 = g_htlock g /\
-               g_rollers g1 = g_rollers g /\ g_socks g1 = g_socks g /\ g_next g1 = g_next g /\
-               (no_on (c_effs c) = true -> g_hooks g1 = g_hooks g)).
+               g_rollers g1 = g_rollers g /\ (no_on (c_effs c) = true -> g_hooks g1 = g_hooks g)).
   { destruct X. repeat split; auto. intros NO. eapply exec_effs_hooks_same; eauto. }
-  destruct r1; try (injection H as <- <- <-; exact F1).
+  destruct F1 as (F1 & F2 & F3 & F4 & F5).
+  destruct r1; try (injection H as <- <- <-; repeat split; auto).
   rewrite SU in H. simpl in H.
   destruct (start_servers old (c_addrs c) g1 []) as [[r3 g3] srv] eqn:E3.
-  assert (r3 <> ROk) as NR3 by (destruct r3; injection H as <- <- <-; congruence).
-  pose proof (start_servers_safe _ _ _ _ _ _ _ LS NI E3 NR3) as ->.
-  destruct r3; injection H as <- <- <-; exact F1.
+  destruct (start_servers_sext _ _ _ _ _ _ _ E3) as [[Z1 Z2 Z3 Z4 Z5] _].
+  destruct r3; injection H as <- <- <-; try congruence; simpl in *; repeat split; try congruence.
+  - intros NO. rewrite Z2. auto.
+  - intros NO. rewrite Z2. auto.
 Qed.
 
 Theorem failed_harmless0_identity m step e c g r g' :
   wf g -> harmless0 m c = true -> attempt m step e c g = (r, g') -> r <> ROk -> g' = g.
 Proof.
-  intros W HM H NR. unfold harmless0 in HM.
+  intros [W T] HM H NR. unfold harmless0 in HM.
   apply andb_true_iff in HM as [HM H3]. apply andb_true_iff in HM as [H1 H2].
-  assert (RL : forall g r g', wf g -> no_log (c_effs c) = true -> listen_safe (c_addrs c) = true ->
+  assert (RL : forall g r g', socks_ok g -> no_log (c_effs c) = true ->
             do_reload step e c g = (r, g') -> r <> ROk ->
             g_insts g' = g_insts g /\ g_htcache g' = g_htcache g /\ g_htlock g' = g_htlock g /\
             g_rollers g' = g_rollers g /\ g_socks g' = g_socks g /\ g_next g' = g_next g /\
             (no_on (c_effs c) = true -> g_hooks g' = g_hooks g)).
-  { clear - H2. intros g r g' W NL LS H NR. unfold do_reload in H.
+  { clear - H2. intros g r g' T NL H NR. unfold do_reload in H.
     destruct (g_insts g) as [|old rest] eqn:GI; [injection H as <- <-; repeat split; auto|].
     destruct (start_with step e c (i_servers old) g) as [[r1 g1] oi] eqn:S.
-    assert (NI : inherited ABusy (i_servers old) = None).
-    { apply inherited_busy_none. apply W. rewrite GI. left. reflexivity. }
     assert (NR1 : r1 <> ROk).
     { intros ->. destruct (start_with_ok_some _ _ _ _ _ _ _ S) as [ni ->]. injection H as <- <-. congruence. }
-    pose proof (start_with_harmless _ _ _ _ _ _ _ _ H2 NL LS NI S NR1) as F. rewrite GI in F.
+    pose proof (start_with_harmless _ _ _ _ _ _ _ _ T H2 NL S NR1) as F. rewrite GI in F.
     destruct r1; [congruence|..]; injection H as <- <-; exact F. }
   destruct m; simpl in H.
-  - apply andb_true_iff in H3 as [NL LS].
+  - rename H3 into NL.
     unfold do_load in H. destruct (start_with step e c [] g) as [[r1 g1] oi] eqn:S.
     assert (NR1 : r1 <> ROk).
     { intros ->. destruct (start_with_ok_some _ _ _ _ _ _ _ S) as [ni ->]. injection H as <- <-. congruence. }
-    destruct (start_with_harmless step e c [] g r1 g1 oi H2 NL LS eq_refl S NR1) as (A1 & A2 & A3 & A4 & A5 & A6 & A7).
+    destruct (start_with_harmless step e c [] g r1 g1 oi T H2 NL S NR1) as (A1 & A2 & A3 & A4 & A5 & A6 & A7).
     assert (g1 = g) as -> by (apply gstate_eq; auto).
     destruct r1; [congruence|..]; injection H as <- <-; reflexivity.
   - unfold do_validate in H. destruct (negb (parse_ok c)); [injection H as <- <-; reflexivity|].
@@ -662,15 +813,15 @@ Proof.
     pose proof (exec_effs_no_auth_same _ _ _ _ _ _ _ _ H2 E1) as [C1 L1].
     pose proof (exec_effs_hooks_same _ _ _ _ _ _ _ _ H1 E1) as K1.
     destruct X. apply gstate_eq; auto.
-  - apply andb_true_iff in H3 as [NL LS].
-    destruct (RL _ _ _ W NL LS H NR) as (A1 & A2 & A3 & A4 & A5 & A6 & A7).
+  - rename H3 into NL.
+    destruct (RL _ _ _ T NL H NR) as (A1 & A2 & A3 & A4 & A5 & A6 & A7).
     apply gstate_eq; auto.
-  - apply andb_true_iff in H3 as [NL LS].
+  - rename H3 into NL.
     unfold do_sigusr1 in H. destruct (g_insts g) as [|old rest] eqn:GI; [injection H as <- <-; reflexivity|].
     destruct (do_reload step e c (set_hooks g [])) as [r1 g1] eqn:R.
     assert (r1 <> ROk) as NR1 by (destruct r1; injection H as <- <-; congruence).
-    assert (W' : wf (set_hooks g [])) by exact W.
-    destruct (RL _ _ _ W' NL LS R NR1) as (A1 & A2 & A3 & A4 & A5 & A6 & A7). simpl in *.
+    assert (T' : socks_ok (set_hooks g [])) by exact T.
+    destruct (RL _ _ _ T' NL R NR1) as (A1 & A2 & A3 & A4 & A5 & A6 & A7). simpl in *.
     destruct r1; injection H as <- <-; try congruence; apply gstate_eq; simpl; auto.
   - unfold do_validate in H. destruct (negb (parse_ok c)); [injection H as <- <-; reflexivity|].
     destruct (exec_effs step e (c_effs c) g l0) as [[r1 g1] l] eqn:E1.
@@ -809,21 +960,34 @@ Proof.
 Qed.
 
 Lemma wf_g0 : wf g0.
-Proof. intros i []. Qed.
+Proof. split; [intros i []|intros s []]. Qed.
 
 (* ------------------------------------------------------------------ running sites are untouched *)
 
 Theorem failed_attempt_sites_untouched m step e c g r g' :
-  attempt m step e c g = (r, g') -> r <> ROk ->
+  wf g -> attempt m step e c g = (r, g') -> r <> ROk ->
   g_insts g' = g_insts g /\
   (forall i, In i (g_insts g) -> alive g i -> alive g' i) /\
   (forall i x, In i (g_insts g) -> roller_of g i = Some x -> roller_of g' i = Some x).
 Proof.
-  intros H NR. destruct (failed_attempt_grow _ _ _ _ _ _ _ H NR) as [G1 G2 G3 G4 G5 G6].
+  intros [W T] H NR. destruct (failed_attempt_grow _ _ _ _ _ _ _ H NR) as [G1 G2 G3 G4 G5].
+  destruct (failed_attempt_socks _ _ _ _ _ _ _ T H NR) as [S1 _].
   split; [exact G1|]. split.
-  - intros i Hi AL a sid Hin. destruct (AL a sid Hin) as (s & I1 & I2 & I3).
-    destruct (G6 s I1) as (s' & J1 & J2 & J3 & J4). exists s'. repeat split; auto; try congruence. lia.
+  - intros i Hi AL a sid Hin. unfold alive in AL. rewrite S1. exact (AL a sid Hin).
   - intros i x Hi. unfold roller_of. destruct (i_log i); [apply G5|discriminate].
+Qed.
+
+(* ... and loses nothing *)
+Theorem failed_attempt_loses_nothing m step e c g r g' :
+  wf g -> attempt m step e c g = (r, g') -> r <> ROk ->
+  g_insts g' = g_insts g /\ g_htlock g' = g_htlock g /\
+  (exists k, g_hooks g' = g_hooks g ++ repeat step k) /\
+  (forall f x, assoc f (g_htcache g) = Some x -> assoc f (g_htcache g') = Some x) /\
+  (forall f x, assoc f (g_rollers g) = Some x -> assoc f (g_rollers g') = Some x) /\
+  g_socks g' = g_socks g.
+Proof.
+  intros [W T] H NR. destruct (failed_attempt_grow _ _ _ _ _ _ _ H NR) as [G1 G2 G3 G4 G5].
+  destruct (failed_attempt_socks _ _ _ _ _ _ _ T H NR) as [S1 _]. auto 10.
 Qed.
 
 (* ------------------------------------------------------------------ valid configurations load *)
@@ -959,10 +1123,6 @@ Lemma frame_refuted :
   (exists c g', attempt Validate 1 [] c g0 = (RErr, g') /\ g_hooks g' <> g_hooks g0) /\
   (exists c0 c g1 g', attempt Load 1 [] c0 g0 = (ROk, g1) /\ attempt Reload 2 [] c g1 = (RErr, g') /\
                       g_hooks g' <> g_hooks g1) /\
-  (* a listener opened before the failing one stays open *)
-  (exists c g', attempt Load 1 [] c g0 = (RErr, g') /\ g_socks g' <> g_socks g0) /\
-  (exists c0 c g1 g', attempt Load 1 [] c0 g0 = (ROk, g1) /\ attempt Reload 2 [] c g1 = (RErr, g') /\
-                      sum_fds (g_socks g') <> sum_fds (g_socks g1)) /\
   (* roller settings of a rejected configuration are registered *)
   (exists c g', attempt Load 1 [] c g0 = (RErr, g') /\ g_rollers g' <> g_rollers g0) /\
   (* the htpasswd file read by a rejected configuration is cached *)
@@ -973,12 +1133,23 @@ Proof.
   - exists (mkcfg 1 [EOn 1; EAuth 2 1] [AEph 1]). eexists. split; [vm_compute; reflexivity|discriminate].
   - exists (mkcfg 1 [] [AEph 1]), (mkcfg 2 [EOn 1; EBad] [AEph 1]). eexists. eexists.
     split; [vm_compute; reflexivity|]. split; [vm_compute; reflexivity|discriminate].
-  - exists (mkcfg 1 [] [AEph 1; ABusy]). eexists. split; [vm_compute; reflexivity|discriminate].
-  - exists (mkcfg 1 [] [AEph 1]), (mkcfg 2 [] [AEph 1; ABusy]). eexists. eexists.
-    split; [vm_compute; reflexivity|]. split; [vm_compute; reflexivity|vm_compute; discriminate].
   - exists (mkcfg 1 [ELog 1 1 true] [ABusy]). eexists. split; [vm_compute; reflexivity|discriminate].
   - exists [(2, users [(2, 1)])], (mkcfg 1 [EAuth 2 1] [AEph 1]). eexists.
     split; [vm_compute; reflexivity|discriminate].
+Qed.
+
+(* the listeners a failing start opened before the failing one are closed again: the socket table and the
+   descriptor counts are exactly as before, on a fresh start and on a reload that inherits a listener *)
+Lemma listeners_closed_witness :
+  (exists g', attempt Load 1 [] (mkcfg 1 [] [AEph 1; ABusy]) g0 = (RErr, g') /\ g_socks g' = g_socks g0) /\
+  (exists g1 g', attempt Load 1 [] (mkcfg 1 [] [AEph 1]) g0 = (ROk, g1) /\
+                 attempt Reload 2 [] (mkcfg 2 [] [AEph 1; AEph 2; ABusy]) g1 = (RErr, g') /\
+                 g_socks g' = g_socks g1 /\ sum_fds (g_socks g1) = 1%nat).
+Proof.
+  split.
+  - eexists. split; vm_compute; reflexivity.
+  - eexists. eexists. split; [vm_compute; reflexivity|]. split; [vm_compute; reflexivity|].
+    split; vm_compute; reflexivity.
 Qed.
 
 (* a valid configuration that would load in a fresh process does not load after a failed attempt *)
